@@ -10,11 +10,23 @@ from harness.props import c01
 
 RULE = ("the C01 complete small layer (documents <= 3 nodes x 1-segment vocabulary) plus seeded-random documents (<= 25 nodes; 60% with "
         "keys drawn from the escapable punctuation set  . / \\ ( ) [ ] ^ $ % ' \" space) x document-guided paths of <= 5 segments "
-        "(non-keyword fragment).  For every real result of every required query: parent[parentref] is the very node returned "
+        "(keyword segments included) plus documents with a spine of depth 3..5 x `<prefix>[parent(n)]`, n in 0..4 or absent, "
+        "the prefix made of key / index / wildcard / `**` / search segments along the spine.  For every real result of every required query: parent[parentref] is the very node returned "
         "(set: member in parent), the parent's address + reference is the node's address, the ancestry is the chain of "
         "(prefix, next reference) pairs from the root, and str(result.path) evaluated by the real Processor on the same document "
-        "returns exactly that node (or every node bearing the anchor when the path ends in [&name]).  Virtual results (slice "
-        "lists) are checked member by member.  distinct_nontrivial = distinct (document, path) with a non-empty result; "
+        "returns exactly that node (or every node bearing the anchor when the path ends in [&name]).  Paths with keyword "
+        "segments other than [name()] (whose result is a key, not a node) are judged on the real code alone: parent[parentref] "
+        "is the node, the ancestry walks from the root to it, str(path) re-resolves to it.  Virtual results (slice "
+        "lists) are checked member by member.  Every reported path is ALSO rendered in dot and in forward-slash notation through "
+        "the library's `separator` setter + str() and each rendering is re-queried (keys with a backslash - also last, also before "
+        "another mark - and keys beginning with `/` are in the punctuation layer).  Whenever the required query succeeds the same path is "
+        "asked in the DEFAULT optional mode (get_nodes(mustexist=False)) on a fresh copy and, unless that created nodes, every result's "
+        "coordinates, ancestry chain and reported path are judged the same way.  Further layers: 8 000 spine documents x paths in which "
+        "a segment advances several levels (key passing through a list of maps, `**`) or climbs (`[parent(n)]` in mid-path) and is "
+        "FOLLOWED by further segments (re-descent, a second `[parent(m)]`); the complete set of lists of <= 4 elements over "
+        "{null, {a: &x 1}, {a: 2}, {b: *x, a: 3}} (root / under a key / in a list) x `[has_child(&x)]`, `[!has_child(&x)]` alone and "
+        "followed by a key / `*` / `[parent()]`, plus 6 000 random lists of maps with null elements, maps of maps and plain lists "
+        "with anchored / aliased children x `[(!)has_child(&name)]`.  distinct_nontrivial = distinct (document, path) with a non-empty result; "
         "results at depth >= 2 are counted in the histogram (deep_results).")
 
 
@@ -24,8 +36,9 @@ def absorb02(chk, results):
         chk.evaluations += stats["n"]
         nontrivial += stats["nontrivial"]
         chk.out_of_model += stats["oom"]
-        for k in ("queries", "nonempty", "ypath", "crash", "unparsable", "virtual", "deep_results", "requeries"):
-            chk.count(k, stats[k])
+        for k in ("queries", "nonempty", "ypath", "crash", "unparsable", "virtual", "deep_results", "requeries", "kw_judged", "kw_results",
+                  "opt_judged", "opt_created", "opt_results", "rendered_requeries", "unmodelled_judged", "unmodelled_results"):
+            chk.count(k, stats.get(k, 0))
         for k, v in stats["kinds"].items():
             chk.count("segment:" + k, v)
         for s in samples:
@@ -46,6 +59,227 @@ def absorb02(chk, results):
     chk.violations.sort(key=lambda v: ev.count_nodes(v["case"]["doc"]) * 10 + len(v["case"].get("path") or ""))
 
 
+def deep_doc(rng, depth, keys, anchors=None):
+    """A document holding at least one node at the given depth: maps, lists and Arrays-of-Hashes along the spine,
+    small random documents beside it."""
+    if anchors is None:
+        anchors = {}                # one anchor table per document (an anchor name is defined once)
+    if depth <= 0:
+        return ev.random_doc(rng, 3, 3, anchors, keys)
+    spine = deep_doc(rng, depth - 1, keys, anchors)
+    sides = [ev.random_doc(rng, rng.choice([1, 1, 3, 5]), 3, anchors, keys) for _ in range(rng.randint(0, 2))]
+    kids = sides + [spine]
+    rng.shuffle(kids)
+    if rng.random() < 0.55:
+        ks = rng.sample([k for k in keys if k != "1"], len(kids))
+        return {"k": "map", "e": [[k, v] for k, v in zip(ks, kids)]}
+    return {"k": "seq", "i": kids}
+
+
+def deep_prefix(rng, doc, minlen):
+    """A prefix of key / index / wildcard / `**` (/ search) segments that follows the deepest branch of the document."""
+    out, cur = [], doc
+    while cur["k"] in ("map", "seq"):
+        kids = cur["e"] if cur["k"] == "map" else list(enumerate(cur["i"]))
+        if not kids:
+            break
+        best = max(_depth(v) for _k, v in kids)
+        ref, v = rng.choice([(k, v) for k, v in kids if _depth(v) == best])
+        r = rng.random()
+        if r < 0.12 and len(out) < minlen:
+            out.append("*")
+        elif r < 0.2 and (not out or out[-1] != "**"):
+            out.append("**")
+            if rng.random() < 0.5:
+                continue            # `**` stands for this and maybe further steps
+        elif cur["k"] == "map":
+            out.append(ev.key_text(ref))
+        elif r < 0.6:
+            out.append("[%d]" % (ref if rng.random() < 0.7 else ref - len(cur["i"])))
+        else:
+            out.append(str(ref))
+        cur = v
+    if cur["k"] not in ("map", "seq", "set") and rng.random() < 0.25:
+        out.append("[.%s%s]" % (rng.choice(["=", "!=", ">=", "<="]), ev.scalar_term(cur)))
+    return out
+
+
+def _depth(j):
+    if j["k"] == "map":
+        return 1 + max([_depth(v) for _k, v in j["e"]] + [0])
+    if j["k"] == "seq":
+        return 1 + max([_depth(v) for v in j["i"]] + [0])
+    return 0
+
+
+def parent_cases(rng, n):
+    """`<prefix>[parent(n)]`, n in 0..4 (and the bare `[parent()]`), after prefixes that reach depth >= 3."""
+    out = []
+    for _ in range(n):
+        d = deep_doc(rng, rng.randint(3, 5), PUNCT2 if rng.random() < 0.3 else ev.RKEYS)
+        pre = deep_prefix(rng, d, 3)
+        for lv in rng.sample(["", "0", "1", "2", "3", "4"], 3):
+            tail = ["[parent(%s)]" % lv]
+            if rng.random() < 0.15:
+                tail.append(rng.choice(["*", "[parent()]", "[parent(2)]", "[has_child(a)]", "[0]", "a"]))
+            out.append((d, pre + tail))
+    return out
+
+
+def spine_of(rng, doc):
+    """The deepest branch of a document: [(container, reference, child)] from the root down."""
+    out, cur = [], doc
+    while cur["k"] in ("map", "seq"):
+        kids = cur["e"] if cur["k"] == "map" else list(enumerate(cur["i"]))
+        if not kids:
+            break
+        best = max(_depth(v) for _k, v in kids)
+        ref, v = rng.choice([(k, v) for k, v in kids if _depth(v) == best])
+        out.append((cur, ref, v))
+        cur = v
+    return out
+
+
+def concrete_seg(rng, cont, ref):
+    if cont["k"] == "map":
+        return ev.key_text(ref)
+    r = rng.random()
+    if r < 0.6:
+        return "[%d]" % (ref if rng.random() < 0.7 else ref - len(cont["i"]))
+    return str(ref)
+
+
+def multilevel_cases(rng, n):
+    """Segments that advance more than one level FOLLOWED by further segments: a key passing through a list of maps
+    (the index is left out), `**` standing for one or more levels, and `[parent(n)]` in mid-path followed by the segments
+    that descend again (and sometimes by another `[parent(m)]`)."""
+    out = []
+    for _ in range(n):
+        d = deep_doc(rng, rng.randint(3, 5), PUNCT2 if rng.random() < 0.3 else ev.RKEYS)
+        sp = spine_of(rng, d)
+        if len(sp) < 2:
+            continue
+        pre, multi, i = [], 0, 0
+        while i < len(sp):
+            cont, ref, child = sp[i]
+            r = rng.random()
+            if cont["k"] == "seq" and child["k"] == "map" and i + 1 < len(sp) and r < 0.45:
+                multi += 1                      # pass-through: the next key is looked up in every map of this list
+            elif r < 0.6 and i + 1 < len(sp) and (not pre or pre[-1] != "**"):
+                pre.append("**")
+                multi += 1
+                i += rng.randint(0, min(2, len(sp) - 2 - i))   # `**` stands for this and maybe further levels ...
+                cont, ref, child = sp[i]
+                if not (cont["k"] == "seq" and child["k"] == "map" and i + 1 < len(sp) and rng.random() < 0.5):
+                    pre.append(concrete_seg(rng, cont, ref))     # ... and is followed by a concrete segment
+            elif r < 0.68:
+                pre.append("*")
+            else:
+                pre.append(concrete_seg(rng, cont, ref))
+            i += 1
+        if not pre:
+            continue
+        tail = []
+        r = rng.random()
+        if r < 0.7:
+            up = rng.randint(1, len(sp))
+            tail.append("[parent(%s)]" % ("" if up == 1 and rng.random() < 0.5 else up))
+            down = rng.randint(0, up)
+            for cont, ref, _c in sp[len(sp) - up:len(sp) - up + down]:
+                tail.append(concrete_seg(rng, cont, ref))
+            if rng.random() < 0.35:
+                tail.append("[parent(%d)]" % rng.randint(0, len(sp) - up + down))
+        out.append((d, pre + tail))
+    return out
+
+
+PUNCT2 = ev.PUNCT_KEYS + ["/a", "a\\", "a\\.b"]      # also: the escape mark at the end / before a mark, a leading slash
+
+AOH_ELEMENTS = [
+    {"k": "null"},
+    {"k": "map", "e": [["a", {"k": "int", "v": "1", "a": "x"}]]},              # defines / aliases &x
+    {"k": "map", "e": [["a", {"k": "int", "v": "2"}]]},
+    {"k": "map", "e": [["b", {"k": "int", "v": "1", "a": "x"}], ["a", {"k": "int", "v": "3"}]]},
+]
+HAS_CHILD_ANCHOR = ["[has_child(&x)]", "[!has_child(&x)]"]
+
+
+def has_child_anchor_small():
+    """Complete: every list of <= 4 elements over {null, {a: &x 1}, {a: 2}, {b: *x, a: 3}} (at the root, under a key,
+    inside a list) x [has_child(&x)] / [!has_child(&x)], alone and followed by a key / [parent()] / *."""
+    import itertools
+    out = []
+    for n in range(1, 5):
+        for els in itertools.product(AOH_ELEMENTS, repeat=n):
+            if not any("e" in e for e in els):
+                continue
+            lst = {"k": "seq", "i": [json.loads(json.dumps(e)) for e in els]}
+            for kw in HAS_CHILD_ANCHOR:
+                out.append((lst, [kw]))
+                out.append(({"k": "map", "e": [["r", lst]]}, ["r", kw]))
+                if n <= 3:
+                    out.append((lst, [kw, "a"]))
+                    out.append(({"k": "map", "e": [["r", lst]]}, ["*", kw, "[parent()]"]))
+                    out.append(({"k": "seq", "i": [{"k": "null"}, lst]}, ["[1]", kw, "*"]))
+                    out.append(({"k": "map", "e": [["r", lst]]}, ["**", kw]))
+    return out
+
+
+def has_child_anchor_cases(rng, n):
+    """Seeded-random: lists of maps with null elements (and, sometimes, stray scalars - then the list is no Array of
+    Hashes), maps of maps and plain lists, in which scalar or container children carry the anchors x / y or alias them;
+    reached by key / index / * / ** ; x [has_child(&name)] / [!has_child(&name)], sometimes followed by one more segment."""
+    out = []
+    for _ in range(n):
+        anchors = {}
+        names = rng.sample(["x", "y", "z"], rng.randint(1, 2))
+
+        def child():
+            r = rng.random()
+            if r < 0.45:
+                nm = rng.choice(names)
+                if nm in anchors:
+                    return json.loads(json.dumps(anchors[nm]))
+                v = dict(rng.choice([v for v in ev.RVALS if v["k"] != "null"])) if rng.random() < 0.8 else \
+                    {"k": "map", "e": [["a", {"k": "int", "v": "1"}]]}
+                v["a"] = nm
+                anchors[nm] = v
+                return v
+            return ev.random_doc(rng, rng.choice([1, 1, 3]), 3, anchors, ev.RKEYS)
+
+        def amap():
+            ks = rng.sample(["a", "b", "c", 1], rng.randint(1, 3))
+            return {"k": "map", "e": [[k, child()] for k in ks]}
+
+        shape = rng.random()
+        if shape < 0.7:
+            items = []
+            for _i in range(rng.randint(2, 6)):
+                q = rng.random()
+                items.append({"k": "null"} if q < 0.3 else dict(rng.choice(ev.RVALS)) if q < 0.34 else amap())
+            target = {"k": "seq", "i": items}
+        elif shape < 0.85:
+            target = {"k": "map", "e": [[k, amap() if rng.random() < 0.7 else child()] for k in rng.sample(["a", "b", "c", "k"], rng.randint(1, 3))]}
+        else:
+            target = {"k": "seq", "i": [child() for _i in range(rng.randint(1, 4))]}
+        w = rng.random()
+        if w < 0.3:
+            d, pre = target, []
+        elif w < 0.6:
+            d, pre = {"k": "map", "e": [["r", target], ["s", ev.random_doc(rng, 3, 3, anchors, ev.RKEYS)]]}, [rng.choice(["r", "r", "*", "**"])]
+        elif w < 0.8:
+            d, pre = {"k": "seq", "i": [{"k": "null"}, target]}, [rng.choice(["[1]", "[-1]", "1"])]
+        else:
+            d, pre = {"k": "map", "e": [["r", {"k": "seq", "i": [{"k": "map", "e": [["t", target]]}]}]]}, \
+                rng.choice([["r", "[0]", "t"], ["r", "t"], ["**", "t"], ["r", "*", "t"]])
+        kw = "[%shas_child(&%s)]" % ("!" if rng.random() < 0.35 else "", rng.choice(names + (["q"] if rng.random() < 0.1 else [])))
+        tail = []
+        if rng.random() < 0.35:
+            tail.append(rng.choice(["a", "b", "*", "[parent()]", "[parent(2)]", "[0]", "**", "[has_child(a)]"]))
+        out.append((d, pre + [kw] + tail))
+    return out
+
+
 def run(chk: core.Check):
     core.use_repo()
     opts = {"c02": True, "slash": False}
@@ -61,7 +295,7 @@ def run(chk: core.Check):
     chk.extra_cov["exhaustive_bound"] = "%d documents (<= 3 nodes) x %d one-segment paths" % (len(docs3), len(ev.VOCAB))
     # every escapable punctuation key, alone and nested, under every way of reaching it
     one = {"k": "int", "v": "1"}
-    for k in ev.PUNCT_KEYS + [".", "/", "\\", "(", ")", "[", "]", "^", "$", "%", " ", "'", '"', "a b.c/d"]:
+    for k in PUNCT2 + [".", "/", "\\", "(", ")", "[", "]", "^", "$", "%", " ", "'", '"', "a b.c/d", "/a/b", "a\\/b", "\\a"]:
         if not isinstance(k, str):
             continue
         shapes = [{"k": "map", "e": [[k, one]]},
@@ -74,10 +308,19 @@ def run(chk: core.Check):
             for p in (["*"], ["**"], [kt], ["*", "*"], ["**", "*"], [kt, "*"], [kt, kt], ["*", kt], ["[.!=zz]"], ["**", "[.=1]"],
                       ["s", "*"], ["s", kt], ["[0]", kt], [kt, "[1]", kt]):
                 cases.append((sh, p))
-    nrand = 150000 if chk.tier == "quick" else 2000000
+    nrand = 110000 if chk.tier == "quick" else 2000000
     for _ in range(nrand):
-        d = ev.random_doc(rng, rng.choice([6, 10, 15, 25]), keys=ev.PUNCT_KEYS if rng.random() < 0.6 else None)
+        d = ev.random_doc(rng, rng.choice([6, 10, 15, 25]), keys=PUNCT2 if rng.random() < 0.6 else None)
         cases.append((d, ev.guided_path(rng, d)))
+    cases += parent_cases(rng, 4000 if chk.tier == "quick" else 40000)
+    cases += multilevel_cases(rng, 8000 if chk.tier == "quick" else 80000)
+    # [min()] / [max()] over a slice result (known finding C02-K6), so that it is reproduced by every run
+    k6 = {"k": "seq", "i": [{"k": "map", "e": [["c", {"k": "int", "v": str(v)}]]} for v in (1, 2, 2)]}
+    cases += [(k6, p) for p in (["[1:3]", "[max(c)]"], ["[0:1]", "[!max(a)]", "c"], ["[0:2]", "[min(c)]"])]
+    hcs = has_child_anchor_small()
+    chk.extra_cov["has_child_anchor_layer"] = "%d cases: lists of <= 4 elements over {null, {a: &x 1}, {a: 2}, {b: *x, a: 3}}" % len(hcs)
+    cases += hcs
+    cases += has_child_anchor_cases(rng, 6000 if chk.tier == "quick" else 60000)
     rng.shuffle(cases)
     chk.exhaustive = True
     cases = c01.subsample(chk, cases)
